@@ -2,6 +2,7 @@ import RV.Driver.C01
 import RV.Driver.C03
 import RV.Driver.C10
 import RV.Driver.C12
+import RV.Driver.C13
 open RV.Driver
 
 def dispatch (prop op : String) (args : List String) (impl : String) : Verdict :=
@@ -14,6 +15,8 @@ def dispatch (prop op : String) (args : List String) (impl : String) : Verdict :
   | "C10" => c10 op args impl
   | "C12" => c12 op args impl
   | "C14" => c14 op args impl
+  | "C13" => c13 op args impl
+  | "C02" => c02 op args impl
   | _ => bad s!"prop:{prop}"
 
 /-- a line is `id \t prop \t op \t arg… \t => \t impl` -/
